@@ -130,6 +130,52 @@ func calcSwapRoundTrip(rep *report.Report, r *chain.Rng, cases *[]CalcCase, next
 	}
 }
 
+// calcSwapRoundTripPool: the same round trip through SwapOne on a pool that carries margin liabilities: the second
+// swap runs on the pool the first one returns.
+func calcSwapRoundTripPool(rep *report.Report, r *chain.Rng, cases *[]CalcCase, next *int) {
+	tr := r.Intn(2) == 0
+	nb, eb := RandDepth(r), RandDepth(r)
+	if r.Intn(2) == 0 {
+		eb = new(big.Int).Add(new(big.Int).Div(new(big.Int).Mul(nb, big.NewInt(int64(1+r.Intn(2000)))), big.NewInt(1000)), big.NewInt(1))
+	}
+	liab := func(base *big.Int) *big.Int {
+		if r.Intn(4) == 0 {
+			return big.NewInt(0)
+		}
+		return new(big.Int).Div(base, big.NewInt(int64(2+r.Intn(50))))
+	}
+	nl, el := liab(nb), liab(eb)
+	base := nb
+	if tr {
+		base = eb
+	}
+	x := new(big.Int).Add(new(big.Int).Div(base, big.NewInt(int64(1+r.Intn(500)))), big.NewInt(1))
+	pm, f, f2 := RandPmtp(r, 1), RandRate(r), RandRate(r)
+	k, o := addCalc(rep, cases, next, 2, []*big.Int{boolBig(tr), x, nb, eb, nl, el, pm, f})
+	if k != 0 || o[0].Sign() == 0 {
+		rep.Count("c04.calc.swap-rt-pool.skipped")
+		return
+	}
+	first := (*cases)[len(*cases)-1]
+	// the pool must move by exactly (+x, -result) on its balances
+	wantN, wantE := new(big.Int).Add(nb, x), new(big.Int).Sub(eb, o[0])
+	if tr {
+		wantN, wantE = new(big.Int).Sub(nb, o[0]), new(big.Int).Add(eb, x)
+	}
+	if o[2].Cmp(wantN) != 0 || o[3].Cmp(wantE) != 0 {
+		rep.Violate("C04/calc/swap-pool-not-exact", fmt.Sprintf("SwapOne moved the pool to (%s,%s), expected (%s,%s)", o[2], o[3], wantN, wantE), first.JSON())
+	}
+	k2, o2 := addCalc(rep, cases, next, 2, []*big.Int{boolBig(!tr), o[0], o[2], o[3], nl, el, pm, f2})
+	if k2 != 0 {
+		return
+	}
+	rep.Count("c04.calc.swap-rt-pool")
+	if o2[0].Cmp(x) > 0 {
+		rep.Violate("C04/calc/swap-roundtrip-profit", fmt.Sprintf("SwapOne %s -> %s on a pool with liabilities (%s,%s), back -> %s", x, o[0], nl, el, o2[0]),
+			map[string]interface{}{"first": first.JSON(), "second": (*cases)[len(*cases)-1].JSON()})
+	}
+}
+
 func calcAddRemove(rep *report.Report, r *chain.Rng, cases *[]CalcCase, next *int) {
 	P, R, A := RandDepth(r), RandDepth(r), RandDepth(r)
 	if r.Intn(2) == 0 {
@@ -555,8 +601,10 @@ func C04(c Ctx) *report.Report {
 	cn := 0
 	for i := 0; i < c.N(700, 30000); i++ {
 		switch i % 5 {
-		case 0, 1:
+		case 0:
 			calcSwapRoundTrip(rep, rng, &calc, &cn)
+		case 1:
+			calcSwapRoundTripPool(rep, rng, &calc, &cn)
 		case 2, 3:
 			calcAddRemove(rep, rng, &calc, &cn)
 		default:
